@@ -71,6 +71,20 @@ CLAIMED = {
         "Trusted: Lean kernel; hand-written walk model tied by correspondence; dict order is outside the property (multiset).",
         "Lean 4 proof (structural induction over dimensions) + exhaustive small-scope correspondence on interactions()",
         "DESIGN.md §5 C14"),
+    "C02": (
+        "Lean 4 theorem: for well-formed, row-aligned one-axis dimensions (any number incl. zero, any commons, explicit or "
+        "inferred extents above every listed category) the whole output of the count-cube model — visited cells and the "
+        "common cells reconstructed by marginal differencing — equals the brute-force table, and a cell is missing iff its "
+        "count is zero. Chain: walk soundness/completeness (C14) => initial invariant of the filled region => "
+        "inclusion-exclusion invariant of each marginal pass (proved for any additive commutative group) => output. "
+        "Tie: interactions, region after fill, region after differencing and count() of the real code vs the model on "
+        "exhaustive small cubes and random ones; multi-axis dims and extents at 255/256, 65535/65536 by the brute-force "
+        "oracle on the real code.",
+        "Trusted: Lean kernel (+ Mathlib's Finset sums); hand-written cube model tied by correspondence at four observation "
+        "points; NumPy slicing/sum semantics of the differencing statement are modelled pointwise; float64 exactness of "
+        "counts < 2^53; multi-axis dims are covered by the oracle and by C13's stacking model.",
+        "Lean 4 proof (invariant by induction over axes, inclusion-exclusion over an AddCommGroup) + intermediate-state correspondence",
+        "DESIGN.md §5 C02"),
 }
 PENDING = {}
 
